@@ -120,6 +120,19 @@ inductive Step (σ ρ : Type) where
   | done (r : ρ)
   | cont (s : σ)
 
+/-- optional whitespace: space or tab -/
+def isOws (x : UInt8) : Bool := x == SP || x == TAB
+/-- the length of `v` without trailing optional whitespace -/
+def trimEndLen (v : Bytes) : Nat := (v.reverse.dropWhile isOws).length
+
+/-- where the value ends, for the LF at `pos`: before a CR if there is one, and before optional whitespace
+(`rposition` of a byte that is neither SP nor TAB) -/
+def valueEndOf (orig : Bytes) (vs pos : Nat) : Nat :=
+  let valueEnd0 := if pos > vs ∧ orig[pos - 1]? = some CR then pos - 1 else pos
+  match sliceGet orig vs valueEnd0 with
+  | some v => vs + trimEndLen v
+  | none => min vs valueEnd0
+
 /-- one iteration of the loop of `parse::headers` at byte `b` (index `pos`, `rest` follows).
 Every unchecked slice of the Rust code is a `.panic` result here (`Props/C02` proves none is reachable). -/
 def hstep (orig : Bytes) (b : UInt8) (rest : Bytes) (pos : Nat) (st : HSt) :
@@ -133,14 +146,14 @@ def hstep (orig : Bytes) (b : UInt8) (rest : Bytes) (pos : Nat) (st : HSt) :
       if rest.head? ≠ some SP then
         -- `&bytes[pos + 1..]`
         if pos + 1 > orig.length then .done (.panic "range start index out of range for slice") else
-        let vs := pos + 1 + skipWhile (fun x => x == SP || x == TAB) rest
+        let vs := pos + 1 + skipWhile isOws rest
         .cont { st with nameEnd := pos, inValue := true, valueStart := vs }
       else .cont { st with nameEnd := pos }
     else if b = SP then
       -- `&bytes[pos..]`
       if pos > orig.length then .done (.panic "range start index out of range for slice") else
-      -- `position(|b| b != ' ').unwrap_or(0) + pos`
-      let vs := pos + (if (b :: rest).all (· == SP) then 0 else skipWhile (· == SP) (b :: rest))
+      -- `position(|b| b != ' ' && b != TAB).unwrap_or(0) + pos`
+      let vs := pos + (if (b :: rest).all isOws then 0 else skipWhile isOws (b :: rest))
       .cont { st with inValue := true, valueStart := vs }
     else .cont st
   else
@@ -149,7 +162,7 @@ def hstep (orig : Bytes) (b : UInt8) (rest : Bytes) (pos : Nat) (st : HSt) :
       | none => .done (.err .illegalName)
       | some name =>
         if !validName name then .done (.err .illegalName) else
-        let valueEnd := if pos > st.valueStart ∧ orig[pos - 1]? = some CR then pos - 1 else pos
+        let valueEnd := valueEndOf orig st.valueStart pos
         -- `bytes.slice(value_start..value_end)` asserts `begin <= end` and `end <= len`
         if st.valueStart > valueEnd ∨ valueEnd > orig.length then .done (.panic "Bytes::slice: range out of bounds") else
         let value := extract orig st.valueStart valueEnd
